@@ -867,18 +867,39 @@ impl Parser {
                         Some(Lexem::Comma) => {}
                         Some(Lexem::RawString(ref ordering_field)) => {
                             let actual_field = match ordering_field.parse::<usize>() {
-                                Ok(idx) => fields[idx - 1].clone(),
+                                Ok(idx) => match idx.checked_sub(1).and_then(|i| fields.get(i)) {
+                                    Some(field) => field.clone(),
+                                    None => {
+                                        return Err(format!(
+                                            "Error parsing order by: there is no column {}",
+                                            idx
+                                        ));
+                                    }
+                                },
                                 _ => {
                                     self.drop_lexem();
-                                    self.parse_expr().unwrap().unwrap()
+                                    match self.parse_expr()? {
+                                        Some(field) => field,
+                                        None => {
+                                            return Err(String::from(
+                                                "Error parsing order by, column expected",
+                                            ));
+                                        }
+                                    }
                                 }
                             };
                             order_by_fields.push(actual_field);
                             order_by_directions.push(true);
                         }
                         Some(Lexem::DescendingOrder) => {
-                            let cnt = order_by_directions.len();
-                            order_by_directions[cnt - 1] = false;
+                            match order_by_directions.last_mut() {
+                                Some(direction) => *direction = false,
+                                None => {
+                                    return Err(String::from(
+                                        "Error parsing order by, DESC without a column",
+                                    ));
+                                }
+                            }
                         }
                         _ => {
                             self.drop_lexem();
